@@ -215,3 +215,11 @@ impl TestResponse {
         } else {None}
     }
 }
+
+#[cfg(feature="ohkami_verif")]
+#[doc(hidden)]
+impl TestingOhkami {
+    pub async fn __verif_handle(&self, req: &mut Request) -> Response {
+        self.0.handle(req).await
+    }
+}
